@@ -98,3 +98,9 @@ def _v41(repo, mod):
     fn = repo.func("pynguin.utils.report", "render_coverage_report")
     k = find_node(fn, lambda n: isinstance(n, ast.keyword) and n.arg == "lexer")
     return replace_node(mod, k.value, "lambda: PythonLexer(stripnl=False)")
+
+
+@variant("C35", "proxied-result-returned", "pynguin.testcase.execution", "C35.regular-result", "the type-tracing executor returns the proxied run (seed C35-e)")
+def _v50(repo, mod):
+    from sa.selftest.harness import text_edit
+    return text_edit(mod, "                start = time.time_ns()\n                self._delegate.execute(test_case)\n", "                start = time.time_ns()\n                result = self._delegate.execute(test_case)\n")
